@@ -283,11 +283,12 @@ def _coq_num(c):
     return z(p) if q == 1 else f"(div O {z(p)} {z(q)})"
 
 
-def _threshold(fn, name):
-    """the single ordering comparison of fn one side of which is a threshold: (coq term, float value, source text)"""
+def _threshold(fn, name, helpers=()):
+    """the single ordering comparison of fn (and, when restructured, of the same-module helpers it calls) one side of which is a
+    threshold: (coq term, float value, source text)"""
     dflt = _defaults(fn)
     found = []
-    for n in ast.walk(fn):
+    for n in [x for f in (fn,) + tuple(helpers) for x in ast.walk(f)]:
         if isinstance(n, ast.Compare) and len(n.ops) == 1 and isinstance(n.ops[0], (ast.Lt, ast.LtE, ast.Gt, ast.GtE)) \
                 and not _len_test(n):
             for e in (n.left, n.comparators[0]):
@@ -313,6 +314,28 @@ def _threshold(fn, name):
     return found[0]
 
 
+TSOFT = [('spatialmath/quaternion.py', 'Quaternion.__init__'), ('spatialmath/quaternion.py', 'Quaternion.norm'), ('spatialmath/quaternion.py', 'Quaternion.log'),
+         ('spatialmath/quaternion.py', 'Quaternion.exp'), ('spatialmath/quaternion.py', 'UnitQuaternion.__init__'), ('spatialmath/base/vectors.py', 'norm'),
+         ('spatialmath/base/quaternions.py', 'qnorm'), ('spatialmath/base/quaternions.py', 'unit')]
+_TSOFT_STOP = {'Quaternion.__init__', 'Quaternion.norm', 'Quaternion.log', 'Quaternion.exp', 'UnitQuaternion.__init__', 'norm', 'qnorm', 'unit'}
+
+
+def _tsoft_same(nm):
+    from lib import tsoft
+    for rel, q in TSOFT:
+        if q == nm:
+            return tsoft.same_thresholds(REPO, 'C12', rel, q, _TSOFT_STOP - {q})[0]
+    return False
+
+
+def _tsoft_helpers(nm):
+    from lib import tsoft
+    for rel, q in TSOFT:
+        if q == nm:
+            return tuple(tsoft.closure(tsoft.module_funcs(os.path.join(REPO, rel)), q, _TSOFT_STOP - {q})[1:])
+    return ()
+
+
 def tconst(ctx):
     """returns {field: (coq term, float value, source text)}; raises TConstError when the hand model no longer corresponds"""
     fns = {}
@@ -322,8 +345,15 @@ def tconst(ctx):
             raise TConstError(f"{f}: _eps is no longer np.finfo(np.float64).eps")
         for nm in names:
             fns[nm] = _find(tree, nm)
+    restructured = []
     for nm, fn in fns.items():
         sk, ex = _skeleton(fn), EXPECTED_SKELETON[nm]
+        calls_differ = nm in EXPECTED_CALLS and sorted(ast.unparse(n.func) for n in ast.walk(fn) if isinstance(n, ast.Call)) != EXPECTED_CALLS[nm]
+        if (sk != ex or calls_differ) and _tsoft_same(nm):
+            # restructured, but the numeric thresholds of the function and of the same-module helpers it calls are the recorded ones:
+            # not a broken tie by itself -- the execution correspondence (escalated) and the oracle decide
+            restructured.append(nm)
+            continue
         if sk != ex:
             i = next((i for i, (a, b) in enumerate(zip(sk, ex)) if a != b), min(len(sk), len(ex)))
             raise TConstError(f"branch skeleton of {nm} differs from the modelled one at position {i}: "
@@ -338,7 +368,11 @@ def tconst(ctx):
     for n in ast.walk(fns['UnitQuaternion.__init__']):
         if isinstance(n, ast.Call) and ast.unparse(n.func) == 'base.unit' and (len(n.args) != 1 or n.keywords):
             raise TConstError("UnitQuaternion.__init__ passes a tolerance to base.unit (the model uses the default)")
-    K = {field: _threshold(fns[nm], nm) for nm, field in SITES.items()}
+    K = {field: _threshold(fns[nm], nm, _tsoft_helpers(nm) if nm in restructured else ()) for nm, field in SITES.items()}
+    ctx.stats['tconst:restructured'] = restructured
+    if restructured:
+        ctx.notes.append("T-const: " + ", ".join(restructured) + " restructured (skeleton / callees differ from the recorded ones) with unchanged numeric "
+                         "thresholds (lib/tsoft.py) -> numeric correspondence escalated to its thorough size")
     ctx.stats['thresholds'] = {k: {'source': v[2], 'value': v[1]} for k, v in K.items()}
     return K
 
@@ -1003,7 +1037,7 @@ def run(ctx):
             ctx.prove('theories/Props/C12_explog.v')
         with ctx.timed('correspond'):
             try:
-                sym_num(ctx, g, MOD, ctx.n(25, 400))
+                sym_num(ctx, g, MOD, 400 if ctx.stats.get('tconst:restructured') else ctx.n(25, 400))
             except Exception as ex:   # keep searching for a failing input
                 ctx.fail('harness:correspondence', f"the model/implementation correspondence could not be run: {type(ex).__name__}: {ex}",
                          {'detail': repr(ex)}, no_input=True)
